@@ -99,7 +99,8 @@ pub fn recv_watch<T>(rx: &std::sync::mpsc::Receiver<T>, idle_secs: u64) -> Optio
 }
 
 /// One render through both public entry points: `render_to` (caller's sink) and the buffered
-/// `render` (returns a `String`).  They must agree.  A disagreement is reported as the observation
+/// `render` (returns a `String`), and `render_to` once more into a sink that accepts three bytes per
+/// call.  They must agree.  A disagreement is reported as the observation
 /// `PANIC` (with a note on stderr): no reference ever produces it, so every check that compares a
 /// render flags the case, whichever of the two entry points is the wrong one.
 fn render_both(t: &liquid::Template, data: &Object) -> Obs {
@@ -116,6 +117,30 @@ fn render_both(t: &liquid::Template, data: &Object) -> Obs {
         Ok(s) => Obs::Ok(s),
         Err(e) => Obs::Err(e.to_string()),
     };
+    // a sink that takes at most 3 bytes per `write` call (legal for `io::Write`: callers must loop)
+    struct Short(Vec<u8>);
+    impl std::io::Write for Short {
+        fn write(&mut self, b: &[u8]) -> std::io::Result<usize> {
+            let n = b.len().min(3);
+            self.0.extend_from_slice(&b[..n]);
+            Ok(n)
+        }
+        fn flush(&mut self) -> std::io::Result<()> {
+            Ok(())
+        }
+    }
+    let mut short = Short(Vec::new());
+    let c = match t.render_to(&mut short, data) {
+        Ok(()) => match String::from_utf8(short.0) {
+            Ok(s) => Obs::Ok(s),
+            Err(e) => Obs::BadUtf8(e.into_bytes()),
+        },
+        Err(e) => Obs::Err(e.to_string()),
+    };
+    if a.tokens() != c.tokens() {
+        eprintln!("note: Template::render_to gives a different result through a sink that accepts 3 bytes per write: whole={} short={}", a.tokens().chars().take(200).collect::<String>(), c.tokens().chars().take(200).collect::<String>());
+        return Obs::Panic("render_to depends on how much the sink accepts per write".into());
+    }
     if a.tokens() != b.tokens() {
         eprintln!("note: Template::render and Template::render_to disagree: render_to={} render={}", a.tokens().chars().take(200).collect::<String>(), b.tokens().chars().take(200).collect::<String>());
         return Obs::Panic("Template::render and Template::render_to disagree".into());
